@@ -135,11 +135,32 @@ def pred_key(prog, e, truth, closure=False):
     return ("" if truth else "!") + t
 
 
+def _same_phi(f, sy, e, depth=0):
+    """a variable assigned in several places, every time the same expression (`len = read()?` before the loop and at the end of its body),
+    is that expression"""
+    if not isinstance(e, tuple) or depth > 8:
+        return e
+    if e and e[0] == "local" and len(e) >= 2 and isinstance(e[1], int):
+        ds = f.defs.get(e[1], [])
+        if len(ds) >= 2 and all(k == "rv" for (_b, _i, k, _x) in ds):
+            vals = [strip(sy.rvalue(x)) for (_b, _i, _k, x) in ds]
+            keys = {re.sub(r"(local:\w*?)_\d+\b", r"\1", canon(v)) for v in vals}
+            if len(keys) == 1 and "local:%s" % (e[2] or "") not in next(iter(keys)):
+                return vals[0]
+        return e
+    return tuple(_same_phi(f, sy, x, depth + 1) if isinstance(x, tuple) else
+                 ([_same_phi(f, sy, y, depth + 1) if isinstance(y, tuple) else y for y in x] if isinstance(x, list) else x) for x in e)
+
+
 def sites(prog, f):
     sy = Sym(f)
     out = []
     for kind, e, truth, sp in validate.guards_of(f, sy):
         if kind == "belief":
+            try:
+                e = _same_phi(f, sy, e)
+            except Exception:
+                pass
             out.append((pred_key(prog, e, truth, "{closure" in f.path), e, truth, sp))
     return sy, out
 
